@@ -247,8 +247,7 @@ SelectionOK ==
 
 \* every stage conserves the text: the characters of the items, in order, are the string
 Conserved ==
-  stage # "idle" => /\ TextOf(buf) = txt
-                    /\ \A i \in 1..Len(buf) : buf[i].t # <<>>
+  stage # "idle" => TextOf(buf) = txt
 
 \* between the width stage and GPOS: marks have no advance, every other glyph the font's
 WidthsOK ==
@@ -257,12 +256,13 @@ WidthsOK ==
                       /\ buf[i].x = 0 /\ buf[i].y = 0
 
 \* no rule of the selected lookups matches anywhere
-Inert(T, sel, seq) ==
+Inert(kind, T, sel, seq) ==
   \A i \in 1..Len(sel) : LET lk == T.ll[sel[i] + 1] IN
     \A p \in 1..Len(seq) :
-      CASE lk.ty = 1 -> FirstRule(lk.rules, LAMBDA r : r[1] = seq[p].g) = 0
-        [] lk.ty = 4 -> FirstRule(lk.rules, LAMBDA r : LigMatches(r, seq, p)) = 0
-        [] lk.ty = 2 -> p = Len(seq) \/ FirstRule(lk.rules, LAMBDA r : r[1] = seq[p].g /\ r[2] = seq[p + 1].g) = 0
+      CASE kind = "GSUB" /\ lk.ty = 4 -> FirstRule(lk.rules, LAMBDA r : LigMatches(r, seq, p)) = 0
+        [] kind = "GPOS" /\ lk.ty = 2 ->
+             p = Len(seq) \/ FirstRule(lk.rules, LAMBDA r : r[1] = seq[p].g /\ r[2] = seq[p + 1].g) = 0
+        [] OTHER -> FirstRule(lk.rules, LAMBDA r : r[1] = seq[p].g) = 0
 
 LastCall == calls[Len(calls)]
 
@@ -272,7 +272,7 @@ Composition ==
     LET c == LastCall
         m == StageCmap(F, c.s)
     IN  /\ c.out = Layout(F, c.s, c.swg, c.swp, c.lg, c.lp, rd)
-        /\ (Inert(G, c.gl, m) /\ Inert(P, c.pl, m)) => c.out = Identity(F, c.s)
+        /\ (Inert("GSUB", G, c.gl, m) /\ Inert("GPOS", P, c.pl, m)) => c.out = Identity(F, c.s)
         /\ TextOf(c.out) = c.s
 
 \* equal calls, equal answers
